@@ -26,16 +26,33 @@
      The result is written as GenBinderModes.v into the run's build dir.
   2. *theorems*: coq/dyn/C10/C10Modes.v is compiled against GenBinderModes.v and GenBindingMatrix.v (the latter is
      C10's reflected matrix; written here with C10's own writer when this run has not produced it yet).
-  3. *shell*: Props/C10Shell.v is re-checked; the `bind-shell` and `wrap-meta` correspondence streams compare
-     bind / wrap / wrap(cls) on functions, methods, callable instances and class hierarchies of /repo with
-     Model/BindingShell.v (see the second half of this file).
+  3. *shell theorems*: Props/C10Shell.v is re-checked (Print Assumptions of its 28 theorems), coq/dyn/C10/C10Shell.v
+     (the headline theorems instantiated with the reflected matrix) is compiled.
+  4. *correspondence* `bind-shell`: bind / wrap / bind over wrap / two wrap layers on functions, bound methods, class
+     methods, callable instances and classes (under bind), and wrap(cls) on chains of 2-3 classes with or without an
+     __init__ of their own, wrapped in generated orders (repeats included), then constructed.  Signatures come from C10's
+     generator (all kind shapes up to 5 parameters, keyword-only markers, defaults, bare *args / **kwargs); the
+     unmarshallers of the binder objects bind/wrap built are replaced by C10's tagging `Stub`s (refusing "poisoned" values
+     so that conversion errors and their ORDER are observed); accepted and rejected call shapes, calls with keywords named
+     `__binding` / `self` (ordinary keywords for the repaired code: a **kwargs signature takes them; the code as pinned
+     reserved them, which shows as mismatches).  Observed: the frame the body receives (defaults included), TypeError, the
+     conversion error, a spy value called in the binder's place (pinned closure only) -- compared in Coq (`fn_case_ok`, `cls_case_ok`, vm_compute) with Model/BindingShell.v
+     (wrap_fn / bind over call_fn = the interpreter's call rule py_bind).
+     `wrap-meta`: __name__, __qualname__, __doc__, __module__, __dict__, __wrapped__ of wrap(f) against `wraps` of the
+     model for 13 kinds of callables (attributes a callable instance / partial does not have stay the wrapper's).
+  5. `search(run, broken)` / `replay(payload)`: oracles with typelib's real unmarshallers, independent of the model:
+     keyword names (a keyword f accepts in its **kwargs reaches f through bind/wrap whatever its name) and class
+     hierarchies (gives a concrete failing input when wrap(cls) skips or mis-targets a class).
 
-Called from props/c10.py (prove/correspond); everything is recorded on the given `run`.
+Entry points for props/c10.py: `COQ_TARGETS` (add to its own), `prove(run)` (after its own prove), `correspond(run)` (after
+its own correspond), `search(run, broken)` (append to its own failures), `replay(payload)` (payloads with a "hierarchy" or
+"reserved" key).  `obligations(run)` = prove + correspond in one call.
 """
 from __future__ import annotations
 
 import ast
 import inspect
+import json
 import os
 import sys
 
@@ -603,6 +620,808 @@ def modes_obligations(run: lib.Run) -> bool:
     return ok and not problems
 
 
-def obligations(run: lib.Run, streams: bool = True) -> bool:
-    ok = modes_obligations(run)
+
+# ==================================================================================
+# 2. the shell: Props/C10Shell.v, dyn/C10/C10Shell.v, streams bind-shell and wrap-meta
+# ==================================================================================
+
+PROPS = [("Props/C10Shell.v", [
+    "C10S_trace_pos", "C10S_trace_kw", "C10S_api_is_shell", "C10S_bind_converts", "C10S_wrap_converts",
+    "C10S_shell_cases", "C10S_frame_accepts", "C10S_frame_rejects", "C10S_frame_rejects_total",
+    "C10S_api_frame_accepts", "C10S_api_frame_rejects", "C10S_py_bind_shape", "C10S_init_self_untouched",
+    "C10S_twice", "C10S_twice_defined", "C10S_idempotent_layers", "C10S_wrap_class_adds_layer",
+    "C10S_wrap_class_other", "C10S_wrap_order_inherited", "C10S_wrap_order_own_init", "C10S_wraps_meta",
+    "C10S_wraps_dict", "C10S_pinned_is_shell", "C10S_wrap_pinned_hijacked", "C10S_bind_pinned_self_refused",
+    "C10S_refuted_reserved_wrap_pinned", "C10S_refuted_reserved_bind_pinned", "C10S_refuted_double_conversion"])]
+SHELL_THEOREMS = ["C10_shell_matrix_ok", "C10_bind_converts", "C10_wrap_converts", "C10_frame_accepts",
+                  "C10_frame_rejects"]
+
+RESERVED, SELF = 999, 998          # Model/BindingShell.v: tie_reserved, tie_self
+EXTRA = {"zz": 100, "yy": 101}
+SPY_ID = 77
+HDR = ("From Coq Require Import String List Arith. Import ListNotations.\n"
+       "Require Import TL.Model.Binding TL.Model.BindingShell.\nRequire Import TLRun.GenBindingMatrix.\n")
+
+
+class ConvError(Exception):
+    """what a tagging unmarshaller raises on a poisoned value"""
+
+
+def _stub_cls():
+    import c10
+
+    class PStub(c10.Stub):
+        """C10's tagging unmarshaller, refusing raw values 500..799 (Model: um_tie / poisoned)"""
+        def __call__(self, v):
+            if type(v) is int and 500 <= v < 800:
+                raise ConvError(self.p, v)
+            return ("C", self.p, v)
+    return PStub
+
+
+class Spy:
+    """a value passed under the keyword `__binding`: an ordinary value for the repaired code (it reaches the callable,
+    converted like any other keyword); wrap's closure AS PINNED called it in the binder's place"""
+    def __init__(self):
+        self.calls = []
+
+    def __call__(self, args, kwargs):
+        self.calls.append((args, dict(kwargs)))
+        return args, kwargs
+
+
+def name_id(n: str) -> int:
+    if n == "__binding":
+        return RESERVED
+    if n == "self":
+        return SELF
+    if n in EXTRA:
+        return EXTRA[n]
+    if n.startswith("p") and n[1:].isdigit():
+        return int(n[1:])
+    raise ValueError(f"unencodable keyword name {n!r}")
+
+
+def shift_sig(sig, off):
+    """C10's signature description with parameter numbers shifted by `off` (off = 1: a self parameter in front)"""
+    out = []
+    for i, p in enumerate(sig):
+        q = dict(p)
+        q["idx"] = i + off
+        q["name"] = f"p{i + off}"
+        out.append(q)
+    return out
+
+
+def def_source(sig, fname, self_first, body):
+    """def fname([self,] p<i>[: T<i>] [= 900+i] ...) with the / and * markers the kinds need"""
+    parts, prev = (["self"] if self_first else []), None
+    for p in sig:
+        k = p["kind"]
+        if prev == "PO" and k != "PO":
+            parts.append("/")
+        if k == "KO" and prev not in ("KO", "VP"):
+            parts.append("*")
+        s = {"VP": "*", "VK": "**"}.get(k, "") + p["name"]
+        if p["ann"] is not None:
+            s += f": T{p['idx']}"
+        if p["default"]:
+            s += f" = {900 + p['idx']}"
+        parts.append(s)
+        prev = k
+    if prev == "PO":
+        parts.append("/")
+    names = (["'self': self"] if self_first and body == "init" else []) + [f"'{p['name']}': {p['name']}" for p in sig]
+    d = "{" + ", ".join(names) + "}"
+    tail = f"    self.got = {d}\n" if body == "init" else f"    return {d}\n"
+    return f"def {fname}({', '.join(parts)}):\n{tail}"
+
+
+def indent(src):
+    return "".join("    " + l + "\n" for l in src.split("\n") if l)
+
+
+def coq_sig(sig, self_first=False) -> str:
+    ps = []
+    if self_first:
+        kind = "PO" if any(p["kind"] == "PO" for p in sig) else "PK"
+        ps.append("(Build_param %s %s false)" % (coq_nat(SELF), kind))
+    ps += ["(Build_param %s %s %s)" % (coq_nat(p["idx"]), p["kind"], coq_bool(p["ann"] is not None)) for p in sig]
+    return coq_list(ps, "param")
+
+
+def coq_defaults(sig, self_first=False) -> str:
+    ds = (["(@None nat)"] if self_first else []) + \
+         [coq_opt(coq_nat(900 + p["idx"]) if p["default"] else None, "nat") for p in sig]
+    return coq_list(ds, "(option nat)")
+
+
+class Unencodable(Exception):
+    pass
+
+
+def enc(v, inst_classes=()) -> str:
+    if type(v) is int and 0 <= v < 5000:
+        return f"(TRaw {coq_nat(v)})"
+    if isinstance(v, tuple) and len(v) == 3 and v[0] == "C" and type(v[1]) is int:
+        return f"(TConv {coq_nat(v[1])} {enc(v[2], inst_classes)})"
+    if isinstance(v, str):
+        try:
+            return f"(TKey {coq_nat(name_id(v))})"
+        except ValueError:
+            raise Unencodable(repr(v))
+    if isinstance(v, Spy):
+        return f"(TRaw {coq_nat(SPY_ID)})"
+    if inst_classes and isinstance(v, tuple(inst_classes)):
+        return "TInst"
+    raise Unencodable(repr(v))
+
+
+def enc_kw(d, inst_classes=()) -> str:
+    return coq_list([coq_pair(coq_nat(name_id(k)), enc(v, inst_classes)) for k, v in d.items()], "(nat * tval)")
+
+
+def enc_frame(got: dict, sig, self_first, inst_classes) -> str:
+    slots = []
+    if self_first:
+        slots.append(f"(OVal {enc(got['self'], inst_classes)})")
+    for p in sig:
+        v = got[p["name"]]
+        if p["kind"] == "VP":
+            slots.append("(OVarPos %s)" % coq_list([enc(x, inst_classes) for x in v], "tval"))
+        elif p["kind"] == "VK":
+            slots.append("(OVarKw %s)" % enc_kw(v, inst_classes))
+        else:
+            slots.append(f"(OVal {enc(v, inst_classes)})")
+    return "(ORet %s)" % coq_list(slots, "oslot")
+
+
+def install_stubs(bobj, PStub) -> int:
+    """replace the unmarshallers of one binder object by tagging stubs (the NoOp of an unannotated parameter stays)"""
+    n = 0
+
+    def stub(u):
+        nonlocal n
+        if isinstance(u, PStub) or u is None:
+            return u
+        t = getattr(u, "t", None)
+        name = getattr(t, "__name__", "")
+        if name.startswith("T") and name[1:].isdigit():
+            n += 1
+            return PStub(int(name[1:]))
+        return u          # NoOpUnmarshaller for an unannotated parameter: the real thing stays in place
+
+    for k in list(bobj.binding):
+        bobj.binding[k] = stub(bobj.binding[k])
+    bobj.varpos = stub(bobj.varpos)
+    bobj.varkwd = stub(bobj.varkwd)
+    return n
+
+
+def binder_of(fn):
+    """the binder object a wrapper produced by wrap() carries: a closure variable (the code with
+    proposed_fixes/C10-reserved-keywords.diff) or the keyword-only default `__binding` (the code as pinned)"""
+    from typelib import binding
+    kd = getattr(fn, "__kwdefaults__", None) or {}
+    if isinstance(kd.get("__binding"), binding.AbstractBinding):
+        return kd["__binding"]
+    for cell in getattr(fn, "__closure__", None) or ():
+        try:
+            v = cell.cell_contents
+        except ValueError:
+            continue
+        if isinstance(v, binding.AbstractBinding):
+            return v
+    return None
+
+
+def stub_layers(obj, PStub):
+    """install stubs on every binding layer reachable from a bound routine / wrapper"""
+    from typelib import binding
+    seen, cur, n = 0, obj, 0
+    while cur is not None and seen < 8:
+        if isinstance(cur, binding.BoundRoutine):
+            b, nxt = cur.binding, cur.call
+        else:
+            b, nxt = binder_of(cur), getattr(cur, "__wrapped__", None)
+        if b is None:
+            break
+        install_stubs(b, PStub)
+        n += 1
+        seen += 1
+        cur = nxt
+    return n
+
+
+def observe_call(g, args, kwargs, spy, frame_of, inst=()):
+    """-> Coq tobs term (or raises Unencodable)"""
+    res = exc = None
+    try:
+        res = g(*args, **kwargs)
+    except (ConvError, TypeError) as e:
+        exc = e
+    if spy is not None and spy.calls:
+        # the spy was called in the binder's place (only the closure as pinned does that; the model never answers OHijack)
+        a, k = spy.calls[0]
+        return "(OHijack %s %s %s)" % (enc(spy), coq_list([enc(x, inst) for x in a], "tval"), enc_kw(k, inst)), "hijacked"
+    if isinstance(exc, ConvError):
+        return f"(ORaiseConv {coq_nat(exc.args[0])} {enc(exc.args[1])})", "conv-error"
+    if exc is not None:
+        return "ORaiseType", "type-error"
+    return frame_of(res), "returned"
+
+
+def call_values(sig, nargs, kwnames, rng, poison, reserved):
+    args = [1 + j for j in range(nargs)]
+    kwargs = {n: 20 + j for j, n in enumerate(kwnames)}
+    spy = None
+    if poison and (args or kwargs):
+        j = rng.randrange(len(args) + len(kwargs))
+        if j < len(args):
+            args[j] = 500 + rng.randrange(300)
+        else:
+            kwargs[list(kwargs)[j - len(args)]] = 500 + rng.randrange(300)
+        if rng.random() < 0.3 and len(args) + len(kwargs) > 1:      # two poisoned values: the first in call order wins
+            j2 = rng.randrange(len(args) + len(kwargs))
+            if j2 < len(args):
+                args[j2] = 500 + rng.randrange(300)
+            else:
+                kwargs[list(kwargs)[j2 - len(args)]] = 500 + rng.randrange(300)
+    for name in (reserved or ()):
+        value = 60
+        if name == "__binding":
+            value = 61
+            if rng.random() < 0.5:
+                value = spy = Spy()
+        items = list(kwargs.items())
+        items.insert(rng.randint(0, len(items)), (name, value))
+        kwargs = dict(items)
+    return args, kwargs, spy
+
+
+def pick_calls(c10, sig, rng, n):
+    shapes = c10.call_shapes(sig, rng, None)
+    acc = [s for s in shapes if c10.py_bind(sig, s[0], s[1]) is not None]
+    rej = [s for s in shapes if c10.py_bind(sig, s[0], s[1]) is None]
+    out = []
+    for _ in range(n):
+        pool = acc if (acc and (rng.random() < 0.7 or not rej)) else rej
+        out.append(rng.choice(pool))
+    return out
+
+
+def fn_cases(run, n_sigs, calls_per):
+    """(i) functions, methods, class methods, callable instances, classes under bind; 1-2 wrap layers, bind on top"""
+    import c10
+    from typelib import binding
+    PStub = _stub_cls()
+    rng = run.rng
+    shapes = list(c10.sig_shapes(5))
+    cases, coq, dist = [], [], {}
+    forms = ["function", "method", "classmethod", "instance", "class-bind"]
+    for si in range(n_sigs):
+        shape = shapes[si % len(shapes)] if si < len(shapes) else rng.choice(shapes)
+        sig = shift_sig(c10.make_sig(shape, rng, all_annotated=(si % 3 == 0), bare_var=(si % 7 == 3)), 0)
+        src = "".join(f"class T{i}(int): pass\n" for i in range(len(sig) + 1))
+        src += def_source(sig, "f", False, "ret")
+        src += "class M:\n" + indent(def_source(sig, "meth", True, "ret")) + \
+               "    @classmethod\n" + indent(def_source(sig, "cm", True, "ret").replace("(self", "(cls", 1))
+        src += "class CI:\n" + indent(def_source(sig, "__call__", True, "ret"))
+        src += "class K:\n" + indent(def_source(sig, "__init__", True, "init").replace("{'self': self, ", "{").replace("{'self': self}", "{}"))
+        form = forms[si % len(forms)] if rng.random() < 0.7 else "function"
+        if form == "class-bind":
+            nwrap, top_bind = 0, True
+        else:
+            nwrap, top_bind = rng.choice([(1, False), (1, False), (0, True), (0, True), (2, False), (1, True), (2, True)])
+        impl.clear_caches()
+        ns = impl.new_module("verif_bindtie_fn", src).__dict__
+        target = {"function": lambda: ns["f"], "method": lambda: ns["M"]().meth, "classmethod": lambda: ns["M"].cm,
+                  "instance": lambda: ns["CI"](), "class-bind": lambda: ns["K"]}[form]()
+        g, err = target, None
+        try:
+            for _ in range(nwrap):
+                g = binding.wrap(g)
+            if top_bind:
+                g = binding.bind(g)
+            layers = stub_layers(g, PStub)
+            if layers != nwrap + (1 if top_bind else 0):
+                err = f"found {layers} binding layers, built {nwrap} wrap + {int(top_bind)} bind"
+        except KeyError:
+            g = None
+        except Exception as e:
+            err = repr(e)
+        head = def_source(sig, "f", False, "ret").split("\n")[0]
+        for nargs, kwnames in pick_calls(c10, sig, rng, calls_per):
+            r = rng.random()
+            # keywords named like the closure's former keyword-only parameter / BoundRoutine.__call__'s first parameter:
+            # ordinary keywords (a **kwargs signature takes them; any other signature refuses them like any unknown name)
+            has_vk = any(p["kind"] == "VK" for p in sig)
+            reserved = []
+            if r < (0.30 if has_vk else 0.06):
+                reserved.append("__binding")
+            if form == "function" and (r < 0.12 or (has_vk and 0.20 <= r < 0.45)):
+                reserved.append("self")      # the other forms are functions with a parameter named self / cls themselves
+            args, kwargs, spy = call_values(sig, nargs, kwnames, rng, poison=(0.45 <= r < 0.62), reserved=reserved)
+            desc = {"layer": "bind-shell", "kind": "fn", "form": form, "def": head, "wrap_layers": nwrap, "bind_on_top": top_bind,
+                    "args": args, "kwargs": {k: (v if type(v) is int else "<spy>") for k, v in kwargs.items()},
+                    "source": src, "error": err}
+            cases.append(desc)
+            if err:
+                coq.append(None)
+                continue
+            try:
+                if g is None:
+                    obs, what = "ODecorError", "decoration-error"
+                else:
+                    fo = (lambda res: enc_frame(res.got, sig, False, ())) if form == "class-bind" else \
+                         (lambda res: enc_frame(res, sig, False, ()))
+                    obs, what = observe_call(g, args, kwargs, spy, fo)
+                desc["observed"] = obs
+                coq.append("(%s, %s, %s, %s, %s, %s, %s)" % (
+                    coq_sig(sig), coq_defaults(sig), coq_nat(nwrap), coq_bool(top_bind),
+                    coq_list([enc(a) for a in args], "tval"), enc_kw(kwargs), obs))
+            except (Unencodable, ValueError, KeyError, AttributeError, TypeError) as e:
+                desc["error"] = f"observation not encodable: {e!r}"
+                coq.append(None)
+                what = "error"
+            except Exception as e:      # any other exception kind cannot be produced by the model
+                desc["error"] = f"unexpected exception {e!r}"
+                coq.append(None)
+                what = "error"
+            key = f"{form}/{nwrap}w{int(top_bind)}b/{what}" + ("/reserved" if reserved else "")
+            dist[key] = dist.get(key, 0) + 1
+    return cases, coq, dist
+
+
+def cls_cases(run, n_hier, calls_per):
+    """(ii) class hierarchies under wrap(cls): a chain of 2-3 classes, each with or without its own __init__,
+    wrapped in a generated order (repeats allowed), then called"""
+    import c10
+    from typelib import binding
+    PStub = _stub_cls()
+    rng = run.rng
+    shapes = [s for s in c10.sig_shapes(4)]
+    cases, coq, dist = [], [], {}
+    for hi in range(n_hier):
+        n = rng.choice([2, 2, 3])
+        own = [True] + [rng.random() < 0.5 for _ in range(n - 1)]
+        sigs = {}
+        src = "".join(f"class T{i}(int): pass\n" for i in range(7))
+        for c in range(n):
+            base = f"(C{c - 1})" if c else ""
+            src += f"class C{c}{base}:\n"
+            if own[c]:
+                sigs[c] = shift_sig(c10.make_sig(rng.choice(shapes), rng, all_annotated=rng.random() < 0.5), 1)
+                src += indent(def_source(sigs[c], "__init__", True, "init"))
+            else:
+                src += "    pass\n"
+        ops = [rng.randrange(n) for _ in range(rng.choice([1, 2, 2, 3]))]
+        if hi % 4 == 0:
+            ops = list(range(n))                     # base first ... subclass last
+        elif hi % 4 == 1:
+            ops = list(reversed(range(n)))           # subclass first
+        impl.clear_caches()
+        ns = impl.new_module("verif_bindtie_cls", src).__dict__
+        classes = [ns[f"C{c}"] for c in range(n)]
+        err = None
+        try:
+            for c in ops:
+                r = binding.wrap(classes[c])
+                if r is not classes[c]:
+                    err = "wrap(cls) did not return cls"
+            for c in range(n):
+                f = classes[c].__dict__.get("__init__")
+                if f is not None:
+                    stub_layers(f, PStub)
+        except Exception as e:
+            err = repr(e)
+        cl = coq_list(["(%s, %s, %s)" % (coq_nat(c), coq_opt(coq_nat(c - 1) if c else None, "nat"),
+                                         coq_opt(coq_nat(c) if own[c] else None, "nat")) for c in range(n)],
+                      "(nat * option nat * option nat)")
+        fs = coq_list(["(%s, %s, %s)" % (coq_nat(c), coq_sig(sigs[c], True), coq_defaults(sigs[c], True)) for c in sigs],
+                      "(nat * sig * list (option nat))")
+        for _ in range(calls_per):
+            target = rng.randrange(n)
+            eff = max(c for c in range(target + 1) if own[c])          # whose __init__ the target runs
+            sig = sigs[eff]
+            csig = [dict(p, name=f"p{j}") for j, p in enumerate(sig)]   # C10's helpers number from 0
+            nargs, kwn = pick_calls(c10, csig, rng, 1)[0]
+            back = {f"p{j}": p["name"] for j, p in enumerate(sig)}
+            kwnames = [back.get(k, k) for k in kwn]
+            r = rng.random()
+            args, kwargs, spy = call_values(sig, nargs, kwnames, rng, poison=(r < 0.15),
+                                            reserved=(["self"] if 0.15 <= r < 0.2 else ["__binding"] if 0.2 <= r < 0.3 else []))
+            desc = {"layer": "bind-shell", "kind": "class", "own_init": own, "wrap_order": ops, "target": target,
+                    "args": args, "kwargs": {k: (v if type(v) is int else "<spy>") for k, v in kwargs.items()},
+                    "source": src, "error": err}
+            cases.append(desc)
+            if err:
+                coq.append(None)
+                continue
+            try:
+                obs, what = observe_call(classes[target], args, kwargs, spy,
+                                         lambda res: enc_frame(res.got, sig, True, classes), classes)
+                desc["observed"] = obs
+                coq.append("(%s, %s, %s, %s, %s, %s, %s)" % (
+                    cl, fs, coq_list([coq_nat(c) for c in ops], "nat"), coq_nat(target),
+                    coq_list([enc(a) for a in args], "tval"), enc_kw(kwargs), obs))
+            except Exception as e:
+                desc["error"] = f"observation not encodable / unexpected exception: {e!r}"
+                coq.append(None)
+                what = "error"
+            nl = sum(1 for c in ops if c == target or (c < target and not any(own[c + 1:target + 1]))) if False else None
+            key = f"class/{n}cls/own={''.join(str(int(o)) for o in own)}/ops={''.join(map(str, ops))}/{what}"
+            dist[key] = dist.get(key, 0) + 1
+    return cases, coq, dist
+
+
+# -- metadata ------------------------------------------------------------------------
+
+def meta_cases():
+    import functools
+    from typelib import binding
+
+    src = ('class T0(int): pass\n'
+           'def documented(a: T0, b=2):\n    "the doc of documented"\n    return a\n'
+           'documented.tag = "a function attribute"\ndocumented.level = 3\n'
+           'def plain(a, *b, c=1, **d):\n    return a\n'
+           'lam = lambda x, /, y=1: x\n'
+           'class M:\n    "doc of M"\n    def meth(self, a: T0, /):\n        "doc of meth"\n        return a\n'
+           '    @classmethod\n    def cm(cls, a):\n        return a\n'
+           '    @staticmethod\n    def sm(a, *, k: T0 = 1):\n        "doc of sm"\n        return a\n'
+           'class CI:\n    "doc of CI"\n    def __call__(self, a: T0):\n        return a\n'
+           'class CJ:\n    def __call__(self, *a, **k):\n        return a\n'
+           'class K:\n    "doc of K"\n    def __init__(self, a: T0, b=1):\n        "doc of K.__init__"\n        self.a = a\n')
+    impl.clear_caches()
+    ns = impl.new_module("verif_bindtie_meta", src).__dict__
+    objs = [("function with doc and attributes", ns["documented"]), ("function without doc", ns["plain"]),
+            ("lambda", ns["lam"]), ("bound method", ns["M"]().meth), ("class method", ns["M"].cm),
+            ("static method", ns["M"].sm), ("callable instance, class with doc", ns["CI"]()),
+            ("callable instance, class without doc", ns["CJ"]()),
+            ("functools.partial", functools.partial(ns["documented"], 1)), ("builtin", len)]
+    table: dict = {}
+
+    def intern(v):
+        key = ("s", v) if isinstance(v, str) else ("n",) if v is None else ("o", repr(v))
+        return table.setdefault(key, len(table))
+
+    missing = object()
+
+    def fields(o):
+        out = {}
+        for a in ("__name__", "__qualname__", "__doc__", "__module__"):
+            v = getattr(o, a, missing)
+            out[a] = None if v is missing else intern(v)
+        d = getattr(o, "__dict__", None)
+        out["dict"] = [(intern(k), intern(v)) for k, v in dict(d).items() if k != "__wrapped__"] if isinstance(d, dict) or \
+            hasattr(d, "items") else []
+        return out
+
+    def emit(f, wrapped):
+        return "{| m_name := %s; m_qualname := %s; m_doc := %s; m_module := %s; m_dict := %s; m_wrapped := %s |}" % (
+            coq_opt(None if f["__name__"] is None else coq_nat(f["__name__"]), "nat"),
+            coq_opt(None if f["__qualname__"] is None else coq_nat(f["__qualname__"]), "nat"),
+            coq_opt(None if f["__doc__"] is None else coq_nat(f["__doc__"]), "nat"),
+            coq_opt(None if f["__module__"] is None else coq_nat(f["__module__"]), "nat"),
+            coq_list([coq_pair(coq_nat(a), coq_nat(b)) for a, b in f["dict"]], "(nat * nat)"),
+            coq_opt(None if wrapped is None else coq_nat(wrapped), "nat"))
+
+    cases, coq, dist = [], [], {}
+
+    def one(label, o, w):
+        desc = {"layer": "wrap-meta", "object": label, "error": None}
+        cases.append(desc)
+        dist[label] = dist.get(label, 0) + 1
+        try:
+            code = w.__code__
+            own = {"__name__": intern(code.co_name), "__qualname__": intern(code.co_qualname), "__doc__": intern(None),
+                   "__module__": intern(w.__globals__["__name__"]), "dict": []}
+            fs, fw = fields(o), fields(w)
+            has = getattr(w, "__wrapped__", missing)
+            wid = None if has is missing else (1 if has is o else 2)
+            desc.update(src={a: getattr(o, a, "<absent>") for a in ("__name__", "__qualname__", "__doc__", "__module__")},
+                        wrapper={a: getattr(w, a, "<absent>") for a in ("__name__", "__qualname__", "__doc__", "__module__")},
+                        wrapped_is_src=(has is o))
+            coq.append("(%s, %s, %s, %s)" % (coq_nat(1), emit(fs, None), emit(own, None), emit(fw, wid)))
+        except Exception as e:
+            desc["error"] = repr(e)
+            coq.append(None)
+
+    for label, o in objs:
+        try:
+            w = binding.wrap(o)
+        except Exception as e:
+            cases.append({"layer": "wrap-meta", "object": label, "error": f"wrap raised {e!r}"})
+            coq.append(None)
+            continue
+        one(label, o, w)
+        if label in ("function with doc and attributes", "callable instance, class with doc"):
+            try:
+                one(label + ", wrapped twice", w, binding.wrap(w))
+            except Exception as e:
+                cases.append({"layer": "wrap-meta", "object": label + ", wrapped twice", "error": repr(e)})
+                coq.append(None)
+    # wrap(cls): the class itself comes back, its __init__ is a wrapper of the original __init__
+    K = ns["K"]
+    orig = K.__dict__["__init__"]
+    try:
+        r = binding.wrap(K)
+        if r is not K:
+            cases.append({"layer": "wrap-meta", "object": "class", "error": "wrap(cls) is not cls"})
+            coq.append(None)
+        one("class: __init__ after wrap(cls)", orig, K.__dict__["__init__"])
+    except Exception as e:
+        cases.append({"layer": "wrap-meta", "object": "class", "error": repr(e)})
+        coq.append(None)
+    return cases, coq, dist
+
+
+# -- evaluation ----------------------------------------------------------------------
+
+def eval_stream(run, tag, ctype, okfn, coq_cases, per_file=50):
+    idx = [i for i, c in enumerate(coq_cases) if c is not None]
+    bad = [i for i, c in enumerate(coq_cases) if c is None]
+    files, owners = {}, {}
+    for n, start in enumerate(range(0, len(idx), per_file)):
+        part = idx[start:start + per_file]
+        name = f"cases_{tag}_{n}.v"
+        files[name] = (HDR + f"Definition cases : list {ctype} :=\n " +
+                       coq_list([coq_cases[i] for i in part]).replace("; (", ";\n  (") +
+                       f".\nEval vm_compute in bad_cases {okfn} cases.\n")
+        owners[name] = part
+    if files:
+        res = run.coq_eval_many(files)
+        for name, out in res.items():
+            if out is None:
+                run.oblige(f"evaluate:{name}", False, "model evaluation did not compile")
+                bad += owners[name]
+            else:
+                bad += [owners[name][j] for j in lib.parse_nat_list(out[-1])]
+    return sorted(set(bad))
+
+
+def model_answer(run, ctype, modelfn, coq_case):
+    """what the model says on one case (for the mismatch report)"""
+    out = run.coq_eval("case_explain.v", HDR + f"Eval vm_compute in {modelfn} {coq_case}.\n")
+    return out[-1][:600] if out else None
+
+
+def shell_streams(run: lib.Run):
+    n_sigs, per = run.budget(150, 800), run.budget(5, 6)
+    cases, coq, dist = fn_cases(run, n_sigs, per)
+    bad = eval_stream(run, "shell_fn", "fn_case", "(fn_case_ok rows)", coq)
+    n_h, per_h = run.budget(60, 300), run.budget(5, 6)
+    cases2, coq2, dist2 = cls_cases(run, n_h, per_h)
+    bad2 = eval_stream(run, "shell_cls", "cls_case", "(cls_case_ok rows)", coq2)
+    mism = [cases[i] for i in bad] + [cases2[i] for i in bad2]
+    for i, (cs, cq, b, fn) in enumerate(((cases, coq, bad, "fn_case_model rows"), (cases2, coq2, bad2, "cls_case_model rows"))):
+        if b and cq[b[0]] is not None:
+            cs[b[0]]["model"] = model_answer(run, None, fn, cq[b[0]])
+    for m in mism[2:]:
+        m.pop("source", None)
+    allc = cases + cases2
+    nontriv = len({json.dumps([c.get("def"), c.get("form"), c.get("wrap_layers"), c.get("bind_on_top"), c.get("own_init"),
+                               c.get("wrap_order"), c.get("target"), c["args"], c["kwargs"]], default=str) for c in allc})
+    dist.update(dist2)
+    run.record_corr("bind-shell", len(allc), mism, nontriv, dist)
+    if allc:
+        run.samples.append({k: v for k, v in allc[0].items() if k != "source"})
+    cases3, coq3, dist3 = meta_cases()
+    bad3 = eval_stream(run, "shell_meta", "meta_case", "meta_case_ok", coq3)
+    run.record_corr("wrap-meta", len(cases3), [cases3[i] for i in bad3], len(cases3), dist3)
+
+
+def shell_obligations(run: lib.Run, streams: bool = True) -> bool:
+    ok = True
+    for rel, thms in PROPS:
+        ok = run.check_props(rel, thms) and ok
+    if matrix_present(run):
+        ok = run.compile_dyn("C10Shell.v", src=os.path.join(lib.DYN, "C10", "C10Shell.v"), theorems=SHELL_THEOREMS) and ok
+        if streams:
+            shell_streams(run)
+    else:
+        ok = False
+        for t in SHELL_THEOREMS:
+            run.oblige(f"theorem:{t}", False, "reflected matrix does not compile")
+    run.assumptions += [
+        "C10 shell: py_bind (Model/BindingShell.v) is CPython's argument binding for Python-level functions; it is compared "
+        "with the interpreter on every bind-shell case (accepted/rejected, frame)",
+        "C10 shell: the tagging unmarshallers of the bind-shell stream stand in for typelib's (installed on the binder objects "
+        "bind/wrap built); real unmarshallers are exercised by C10's oracle",
+    ]
     return ok
+
+
+def prove(run: lib.Run) -> bool:
+    """the obligations (translation, C10Modes.v, Props/C10Shell.v, C10Shell.v): call from props/c10.py prove(), after
+    its own GenBindingMatrix.v / C10.v"""
+    ok = modes_obligations(run)
+    return shell_obligations(run, streams=False) and ok
+
+
+def correspond(run: lib.Run):
+    """the streams bind-shell and wrap-meta: call from props/c10.py correspond()"""
+    if matrix_present(run):
+        shell_streams(run)
+    else:
+        run.record_corr("bind-shell", 1, [{"error": "reflected matrix did not compile"}], 0, {})
+
+
+def obligations(run: lib.Run, streams: bool = True) -> bool:
+    """everything WP-D adds to C10's check in one call (prove + correspond)"""
+    ok = prove(run)
+    if streams:
+        correspond(run)
+    return ok
+
+
+# ==================================================================================
+# 3. oracle for class hierarchies (independent of the model; real unmarshallers)
+# ==================================================================================
+
+H_ANN = ["int", "str", "float", "decimal.Decimal", "fractions.Fraction"]     # unmarshalling twice = once on these
+
+
+def _hier_source(rng, k):
+    """a chain C0 <- C1 <- ..; every class with an __init__ of its own has its own parameters"""
+    src = "import decimal, fractions\n"
+    inits = {}
+    for c in range(k):
+        src += f"class C{c}" + (f"(C{c - 1})" if c else "") + ":\n"
+        if c == 0 or rng.random() < 0.6:
+            npar = rng.randint(1, 3)
+            pars = []
+            for j in range(npar):
+                ann = rng.choice(H_ANN + [None])
+                kwonly = j == npar - 1 and rng.random() < 0.4
+                pars.append({"name": f"c{c}_{j}", "ann": ann, "kwonly": kwonly})
+            parts = ["self"]
+            for q in pars:
+                if q["kwonly"]:
+                    parts.append("*")
+                parts.append(q["name"] + (f": {q['ann']}" if q["ann"] else ""))
+            names = ", ".join(f"'{q['name']}': {q['name']}" for q in pars)
+            src += f"    def __init__({', '.join(parts)}):\n        self.got = {{{names}}}\n"
+            inits[c] = pars
+        else:
+            src += "    pass\n"
+    return src, inits
+
+
+def check_hierarchy(src, inits, order, k):
+    import decimal
+    import fractions
+    from typelib import binding, unmarshals
+    anns = {"int": int, "str": str, "float": float, "decimal.Decimal": decimal.Decimal, "fractions.Fraction": fractions.Fraction}
+    inits = {int(c): v for c, v in inits.items()}
+    impl.clear_caches()
+    ns = impl.new_module("verif_bindtie_hier", src).__dict__
+    classes = [ns[f"C{c}"] for c in range(k)]
+    fails = []
+    for c in order:
+        binding.wrap(classes[c])
+    for target in range(k):
+        eff = max(c for c in range(target + 1) if c in inits)
+        pars = inits[eff]
+        args = [str(j + 1).encode() for j, q in enumerate(pars) if not q["kwonly"]]
+        kwargs = {q["name"]: str(j + 11).encode() for j, q in enumerate(pars) if q["kwonly"]}
+        vals = dict(zip([q["name"] for q in pars if not q["kwonly"]], args), **kwargs)
+        expected = {q["name"]: (vals[q["name"]] if q["ann"] is None else unmarshals.unmarshal(anns[q["ann"]], vals[q["name"]]))
+                    for q in pars}
+        try:
+            got = classes[target](*args, **kwargs).got
+        except Exception as e:
+            got = repr(e)
+        if repr(got) != repr(expected):
+            fails.append({"symptom": "class argument not converted by its own parameter", "api": "wrap", "form": "class-hierarchy",
+                          "target": f"C{target}", "runs_init_of": f"C{eff}", "wrap_order": [f"C{c}" for c in order],
+                          "args": [repr(a) for a in args], "kwargs": {n: repr(v) for n, v in kwargs.items()},
+                          "got": repr(got), "expected": repr(expected),
+                          "hierarchy": {"source": src, "inits": inits, "order": list(order), "k": k}})
+    return fails
+
+
+R_SOURCES = [
+    ("def f(a: int, **kw: int):\n    return {'a': a, 'kw': kw}\n", [b"1"], {"a": "int"}, "int"),
+    ("def f(**kw: float):\n    return {'kw': kw}\n", [], {}, "float"),
+    ("def f(a: int = b'0', *b: int, c: str = '', **kw: decimal.Decimal):\n    return {'a': a, 'b': b, 'c': c, 'kw': kw}\n",
+     [], {}, "decimal.Decimal"),
+    ("def f(a: str, /, **kw):\n    return {'a': a, 'kw': kw}\n", [b"1"], {"a": "str"}, None),
+]
+
+
+def check_reserved(src, args, kwargs, api):
+    """a keyword argument f itself accepts in its **kwargs must reach f through bind(f) / wrap(f), converted by the
+    **kwargs annotation -- whatever its name"""
+    import decimal
+    import fractions
+    from typelib import binding, unmarshals
+    anns = {"int": int, "str": str, "float": float, "decimal.Decimal": decimal.Decimal, "fractions.Fraction": fractions.Fraction}
+    row = next(r for r in R_SOURCES if r[0] == src)
+    impl.clear_caches()
+    ns = impl.new_module("verif_bindtie_resv", "import decimal, fractions\n" + src).__dict__
+    f = ns["f"]
+    args = [a.encode() if isinstance(a, str) else a for a in args]
+    kwargs = {k: (v.encode() if isinstance(v, str) else v) for k, v in kwargs.items()}
+    pos_ann = list(row[2].values())
+    ea = [unmarshals.unmarshal(anns[pos_ann[i]], a) if i < len(pos_ann) else a for i, a in enumerate(args)]
+    ek = {k: (v if row[3] is None else unmarshals.unmarshal(anns[row[3]], v)) for k, v in kwargs.items()}
+    expected = f(*ea, **ek)           # Python accepts the call: f has **kwargs
+    try:
+        got = getattr(binding, api)(f)(*args, **kwargs)
+    except Exception as e:
+        got = repr(e)
+    if repr(got) == repr(expected):
+        return []
+    return [{"symptom": "keyword argument that the callable accepts is not passed on converted", "api": api, "form": "f",
+             "def": src.split("\n")[0], "args": [repr(a) for a in args], "kwargs": {k: repr(v) for k, v in kwargs.items()},
+             "got": repr(got), "expected": repr(expected),
+             "reserved": {"source": src, "args": [a.decode() for a in args], "kwargs": {k: v.decode() for k, v in kwargs.items()},
+                          "api": api}}]
+
+
+def search_reserved(run) -> list:
+    fails, evals = [], 0
+    for src, args, _, _ in R_SOURCES:
+        for api in ("wrap", "bind"):
+            for names in (["__binding"], ["self"], ["cls"], ["args"], ["kwargs"], ["binding"], ["obj"], ["__binding", "self"]):
+                kwargs = {n: str(2 + j).encode() for j, n in enumerate(names)}
+                fs = check_reserved(src, args, kwargs, api)
+                evals += 1
+                for f in fs:
+                    f["key"] = json.dumps([f["symptom"], api, names])
+                fails += fs
+    run.search_stats["oracle_keyword_names"] = {
+        "evaluations": evals, "distinct_nontrivial": evals, "failures": len(fails),
+        "rule": "4 signatures with **kwargs x bind/wrap x keyword names an implementation might reserve (__binding, self, cls, "
+                "args, kwargs, binding, obj); expected = f called with unmarshal(annotation of **kwargs, value)"}
+    # one per (api, first reserved name), shortest definition first
+    best = {}
+    for f in sorted(fails, key=lambda f: (len(f["kwargs"]), len(f["def"]))):
+        names = sorted(f["kwargs"])
+        if len(names) > 1 and any(a == f["api"] and n in names for a, n in best):
+            continue                      # already reported with one of these names alone
+        best.setdefault((f["api"], names[0]), f)
+    return list(best.values())
+
+
+def search(run: lib.Run, broken) -> list:
+    """(a) keyword names: see search_reserved.  (b) every class of a chain handed to wrap() once, in every generated
+    order: constructing any class of the chain converts each argument of the __init__ it runs by that parameter's own
+    annotation"""
+    import itertools
+    import random
+    out = search_reserved(run)
+    rng = random.Random(run.seed + 11)
+    n = run.budget(40, 300) * (3 if broken else 1)
+    fails, evals = [], 0
+    for h in range(n):
+        k = rng.choice([2, 2, 3])
+        src, inits = _hier_source(rng, k)
+        for order in itertools.permutations(range(k)):
+            fs = check_hierarchy(src, inits, order, k)
+            evals += k
+            for f in fs:
+                f["key"] = json.dumps([f["symptom"], f["form"], f["runs_init_of"] == f["target"], len(f["wrap_order"])])
+            fails += fs
+        if len(fails) > 50:
+            break
+    fails.sort(key=lambda f: (f["hierarchy"]["k"], len(f["hierarchy"]["source"])))
+    run.search_stats["oracle_class_hierarchies"] = {
+        "evaluations": evals, "distinct_nontrivial": evals, "hierarchies": n, "failures": len(fails),
+        "rule": "chains of 2-3 classes, each with its own __init__ (own parameters) or inheriting; every class wrapped once, "
+                "all orders; every class constructed; expected = unmarshal(annotation, argument) per parameter of the __init__ "
+                "that runs (annotations on which unmarshalling twice equals once)"}
+    return out + fails[:3]
+
+
+def replay(payload) -> dict:
+    if payload.get("reserved"):
+        r = payload["reserved"]
+        fs = check_reserved(r["source"], r["args"], r["kwargs"], r["api"])
+        return {"fails": bool(fs), "failures": fs}
+    h = payload.get("hierarchy")
+    if not h:
+        return {"fails": False, "failures": []}
+    fs = check_hierarchy(h["source"], h["inits"], h["order"], h["k"])
+    return {"fails": bool(fs), "failures": fs}
